@@ -263,7 +263,7 @@ theorem ztail_poll {cap mc : Nat} {W0 L Z : Bytes} (h24 : 24 ≤ cap) (hns : NoS
       omega
     have hst : PSt cap mc W0 L Z (mkC c (.parseReq (track cap mc raw)
         (.writing (run .header raw mc).out (run .header raw mc).st.isFinal)) c.env.tr) raw :=
-      ⟨hwire, hstop, hb, hremle, Or.inr ⟨_, rfl, by show c.env.tr.wlog ++ _ = _; rw [hlog]⟩⟩
+      ⟨hwire, hstop, hb, hremle, Or.inr ⟨_, rfl, by show c.env.tr.wlog ++ _ = _; rw [hlog], [], rfl⟩⟩
     have hk' : PKeep sc h0 evs (mkC c (.parseReq (track cap mc raw)
         (.writing (run .header raw mc).out (run .header raw mc).st.isFinal)) c.env.tr) :=
       hk.frame ⟨rfl, rfl, rfl, rfl, .refl _⟩
@@ -601,7 +601,7 @@ theorem ustage_poll {g : Cfg} (ok : UOK g) {c : Conn} (hst : UStage g c) :
         (.writing (run .header raw g.mc).out (run .header raw g.mc).st.isFinal)) c.env.tr) raw :=
       ⟨by show raw ++ c.env.tr.input ++ [] = g.W
           rw [List.append_nil]; exact hwire,
-        hstop, hb, hremle, Or.inr ⟨_, rfl, by show c.env.tr.wlog ++ _ = _; rw [hlog]⟩⟩
+        hstop, hb, hremle, Or.inr ⟨_, rfl, by show c.env.tr.wlog ++ _ = _; rw [hlog], [], rfl⟩⟩
     have := URes.of_steps (Steps.one hstep') (mkC_link c _ (.refl _)) (uparse_poll ok hst hsc hm hev)
     exact this.mono (by show 1 + (2 * c.env.tr.input.length + 8) ≤ _; omega)
   | parse hst hsc hm hev => exact (uparse_poll ok hst hsc hm hev).mono (by omega)
